@@ -212,6 +212,7 @@ func init() {
 		types: []string{"GSAP"}, quickN: 16000, thorMul: 40, corpusN: 2000, large: false, midtext: true,
 		weights: HWeights{Write: 18, ReadFrom: 6, Parse: 34, ParseNTL: 16, ParseNil: 0, Shrink: 12, Reset: 2, ResetData: 3, WParse: 6},
 		opts:    func(typ string) gen.Opts { return gen.Opts{} },
+		scale:   []string{"allsources"},
 		tweak: func(r *rand.Rand, pc *PCase, kind string) {
 			if r.Intn(2) == 0 {
 				// the literal clause needs BufferSize <= WindowSize
@@ -417,7 +418,7 @@ func init() {
 			assumptions: []string{"the block end for maximality is parse position + min(BlockSize, unparsed)"},
 			mandatory:   []string{"matches_checked_for_maximality", "matches_ending_inside_block", "matches_ending_at_block_end", "backward_extension_checked", "run_blocks_checked", "run_blocks_inside_run", "run_blocks_of_zero_bytes", "run_blocks_with_tiny_window"}},
 		types: gen.ParserTypes, quickN: 12000, thorMul: 40, corpusN: 600, large: true,
-		weights: DefaultWeights,
+		weights: DefaultWeights, scale: scaleAll,
 		fixed: map[string]PCase{
 			// reproducer of the recorded finding KF-C19-GSAP
 			"gsap-shadowed-run": {Cfg: gen.Cfg{Type: "GSAP", ShrinkSize: 1, BufferSize: 203, WindowSize: 3, BlockSize: 39, MinMatchLen: 3},
